@@ -80,7 +80,8 @@ where
     E: ParserError<I>,
     <I as Stream>::Token: AsChar + Clone,
 {
-    paren(take_till(0.., ')')).parse_next(input)
+    // the string ends on its own line: a `)` on a later line does not close it.
+    paren(take_till(0.., [')', '\r', '\n'])).parse_next(input)
 }
 
 /// Parses given parser within the paren.
